@@ -8,7 +8,8 @@ PROP = 'C11'
 PROPCHK = 'C11_prop'
 RELAX = [('F-C01-row-switch', 'C11_prop_switch')]
 RELAX_ALL = 'C11_prop_switch'
-THEOREMS = ['C11_at_most_one_row', 'C11_operation_type_coalesces', 'C11_other_entities_do_not_interfere', 'C11_example']
+THEOREMS = ['C11_at_most_one_row', 'C11_operation_type_coalesces', 'C11_other_entities_do_not_interfere', 'C11_insert_kind_is_the_code',
+            'C11_delete_kind_is_the_code', 'C11_operation_constants_are_the_code', 'C11_example']
 RULE = ('(enumerated) every sequence over {insert, update, delete, re-insert} of one key with every placement of flush '
         'points, up to length 4, inside a single transaction after a committed prefix (entity pre-existing or not), both '
         'strategies, tracker on/off - a finite family used as test inputs, the theorem is unbounded; plus (random) the '
